@@ -470,7 +470,7 @@ def canon_state_rule(ctx):
     # reviewed: the writer, the named-once table (bool per node), the in-progress table (generation per node) and the
     # counter of named types written that the generations are taken from
     ok = a is not None and len(tys) == 4 and sum(1 for t in tys if t == 'alloc::vec::Vec<bool>') == 1 and \
-        sum(1 for t in tys if t == 'alloc::vec::Vec<usize>') == 1 and sum(1 for t in tys if t == 'usize') == 1
+        sum(1 for t in tys if t in ('alloc::vec::Vec<usize>', 'alloc::vec::Vec<core::option::Option<usize>>')) == 1 and sum(1 for t in tys if t == 'usize') == 1
     ctx.ob('STATE', 'canonical-writer-fields', ok, short_loc(a['span']) if a else None,
            'fields of the recursive canonical-form writer: %s (reviewed: the writer, two per-node tables and the named-types counter)' % ([x['name'] + ': ' + x['ty'][:40] for x in a['variants'][0]['fields']] if a else None))
 
